@@ -12,7 +12,7 @@ import (
 
 func init() {
 	Register("C15", &Scenario{Name: "single-violation-random", Weight: 10, Run: func(c *Ctx, v int) { runC15(c, -1) }})
-	Register("C15", &Scenario{Name: "single-violation-directed", Directed: len(c15Names) * 4, Run: func(c *Ctx, v int) { runC15(c, v) }})
+	Register("C15", &Scenario{Name: "single-violation-directed", Directed: len(c15Names) * 8, Run: func(c *Ctx, v int) { runC15(c, v) }})
 }
 
 const (
@@ -35,6 +35,7 @@ var c15pKind [mvCount]sim.StatID
 var (
 	c15pAfterMsgs = sim.RegStat("probe:c15-violation-after-delivered-messages")
 	c15p1002      = sim.RegStat("probe:c15-close-1002-verified-on-wire")
+	c15pClosing   = sim.RegStat("probe:c15-violation-arrives-after-the-client-sent-its-own-close")
 )
 
 func init() {
@@ -52,11 +53,16 @@ func runC15(c *Ctx, variant int) {
 	api := w.Choose(4)
 	transport := w.Pick(0, 2)
 	mv := w.Choose(mvCount)
+	// closing: the application has started the closing handshake and keeps
+	// reading for the peer's Close; the violation arrives in that stage
+	closing := false
 	if variant >= 0 {
 		mv = variant % mvCount
 		api = (variant / mvCount) % 4
 		transport = 2 * (variant % 2)
+		closing = variant >= mvCount*4
 	} else {
+		closing = w.Chance(1, 4)
 		w.EnableFaults(sim.FSegment, sim.FDelay, sim.FShortRead)
 	}
 	msgAPI := api < 2
@@ -188,13 +194,19 @@ func runC15(c *Ctx, variant int) {
 		cuts = append(cuts, w.Range(1, len(wire)-1))
 	}
 	sortInts(cuts)
-	c.Notef("mutation=%s at frame %d/%d api=%s transport=%d msgs-before=%d", c15Names[mv], k, len(frames), c06APINames[api], transport, before)
+	c.Notef("mutation=%s at frame %d/%d api=%s transport=%d msgs-before=%d closing=%v", c15Names[mv], k, len(frames), c06APINames[api], transport, before, closing)
 	if transport == 0 {
 		d.connect()
 	} else {
 		d.attach()
 		d.mem.Partial = w.Chance(1, 2)
 		d.mem.Defer = w.Chance(1, 3)
+	}
+	if closing {
+		w.Stat(c15pClosing)
+		if err := d.ws.Close(websocket.CloseNormal, "bye"); err != nil {
+			c.Failf("close-failed", "Close on a healthy, active stream: %v", err)
+		}
 	}
 	d.feed(wire, cuts)
 
@@ -212,7 +224,7 @@ func runC15(c *Ctx, variant int) {
 		}()
 		r.readAll(len(g.msgs) + 3)
 	}()
-	label := fmt.Sprintf("mutation=%s api=%s", c15Names[mv], c06APINames[api])
+	label := fmt.Sprintf("mutation=%s api=%s closing=%v", c15Names[mv], c06APINames[api], closing)
 	if r.endErr == nil {
 		c.Failf("violation-not-reported/"+c15Names[mv]+"/"+c06APINames[api], "%s: every read succeeded (%d messages delivered); the violating frame was not reported", label, len(r.gotM))
 	}
@@ -261,6 +273,10 @@ func runC15(c *Ctx, variant int) {
 	for _, f := range out {
 		if f.Opcode == wsClose {
 			closes++
+			if closing {
+				// the client's one Close frame went out before the violation
+				continue
+			}
 			if len(f.Payload) < 2 || int(f.Payload[0])<<8|int(f.Payload[1]) != 1002 {
 				c.Failf("close-status-not-1002/"+c15Names[mv], "%s: the Close frame queued after the framing violation carries payload %v", label, f.Payload)
 			}
@@ -268,6 +284,9 @@ func runC15(c *Ctx, variant int) {
 		if f.Opcode == wsText || f.Opcode == wsBinary {
 			c.Failf("data-frame-written-after-framing-violation", "%s: a data frame reached the wire after the framing violation", label)
 		}
+	}
+	if closing && closes != 1 {
+		c.Failf("close-frame-count-after-violation-while-closing", "%s: the client had sent its Close before the violation arrived; %d Close frames are on the wire", label, closes)
 	}
 	if closes == 0 {
 		c.Failf("no-close-1002-after-framing-violation/"+c15Names[mv], "%s: after the next flush no Close frame is on the wire (%d frames written)", label, len(out))
